@@ -259,7 +259,13 @@ def run(ctx, rep, tier):
     rep.check("return (self.loop_start_actions, self)" in ast.unparse(model.func("LoopNode.adopt_actions_from")), "C01.f", "LoopNode.adopt_actions_from",
               "the first iteration gets the same actions from the preceding node", "loop start action adoption changed")
 
+    rep.check(model.has("LoopNode.convert", "if not any((DFTransition.Else in x.on_values for x in accept_state.transitions)):\n    accept_state[DFTransition.Else] = DFTransition(fallthrough=True).to(sub_dfa.starting_state).attach(*self.loop_start_actions)"),
+              "C01.q", "LoopNode.convert", "an end state of the body without an Else transition gets the loop-back Else (not only a state without any transition)",
+              "an end state of the loop body that only has transitions continuing its last statement has no loop-back edge: a byte that starts the next iteration matches nothing there, "
+              "feed() falls out of the state's switch and returns OK mid-chunk (`loop { greedy case { \"a\" -> {} \"abc\" -> {} \"x\" -> { break; } } }` on \"aabcx\": outcome depends on chunking)")
+
     # ------------------------------------------------------------------ C01.j foreach
+    rep.rule("C01.q", "loop: every end state of the body handles every symbol - what does not continue its last statement loops back")
     rep.rule("C01.j", "foreach: the do-actions are prepended to every consuming transition of the body that does not go to an error handler")
     fe = model.func("ForeachNode.convert")
     skips = [n for n in ast.walk(fe) if isinstance(n, ast.If) and n.body and isinstance(n.body[-1], ast.Continue)]
